@@ -165,6 +165,8 @@ def run_one(specs, cblock, cleanup):
             def fn(*args):
                 if cblock == 'fail':
                     raise Boom('eval')
+                if cblock == 'undef':
+                    return edzed.UNDEF      # not a valid output: the first evaluation fails
                 return len(args)
             cb = edzed.FuncBlock('cb', func=fn).connect(*[b.name for b in blocks])
             allblocks.append(cb)
@@ -284,7 +286,7 @@ class C05(common.Spec):
         if obs['harness'] is not None or obs['ok'] is None:
             raise common.Broken(f"C05 harness problem: {obs['harness']} on {case}")
         specs = permuted(case['base'], case['perm'])
-        return ("(Build_icase " + clist([c_spec(s) for s in specs]) + " " + cbool(case['cblock'] == 'fail') + " "
+        return ("(Build_icase " + clist([c_spec(s) for s in specs]) + " " + cbool(case['cblock'] in ('fail', 'undef')) + " "
                 + clist([f"({CALLS[t]} {cnat(p)})" for t, p in obs['log']]) + " " + cbool(obs['ok'])
                 + " " + cbool(bool(obs['defined']) and bool(obs['ready'])) + " " + cz(obs['t_ms']) + " "
                 + clist([cbool(bool(x)) for x in obs['perm_ok']]) + " " + clist([cbool(x) for x in obs['flags']]) + ")")
@@ -334,7 +336,7 @@ class C05(common.Spec):
         n = len(case['base'])
         for perm in itertools.permutations(range(n)):
             yield dict(case, perm=list(perm))
-        for cb in (None, 'ok', 'fail'):
+        for cb in (None, 'ok', 'fail', 'undef'):
             for cl in (False, True):
                 yield dict(case, cblock=cb, cleanup=cl)
 
@@ -492,7 +494,7 @@ def check(run):
             base = [dict(b) for b in DIRECTED[i]]
         else:
             base = gen_base(run.rng, 4 if (run.tier != 'quick' or i % 4 == 0) else 3)
-        cb = run.rng.choice([None, None, 'ok', 'ok', 'fail'])
+        cb = run.rng.choice([None, None, 'ok', 'ok', 'fail', 'undef'])
         cl = run.rng.random() < 0.3
         run.count('blocks_%d' % len(base))
         run.count('cblock_%s' % cb)
